@@ -254,8 +254,11 @@ public:
       } else if (auto *SL = dyn_cast<StringLiteral>(E)) {
         N.k = "str";
         N.s = SL->getBytes().substr(0, 256).str();
-      } else if (isa<FloatingLiteral>(E)) {
+      } else if (auto *FL = dyn_cast<FloatingLiteral>(E)) {
         N.k = "flt";
+        char fbuf[64];
+        snprintf(fbuf, sizeof fbuf, "%.17g", FL->getValueAsApproximateDouble());
+        N.s = fbuf;
       } else if (auto *DR = dyn_cast<DeclRefExpr>(E)) {
         N.k = "ref";
         N.op = DR->getDecl()->getNameAsString();
